@@ -140,6 +140,8 @@ class BaseSliver(ABC):
 
     def set_label_allocations(self, lab: Labels) -> None:
         assert(lab is None or isinstance(lab, Labels))
+        if lab is not None:
+            Labels(**(lab.to_dict() or {}))
         self.label_allocations = lab
 
     def get_label_allocations(self) -> Labels:
@@ -191,6 +193,9 @@ class BaseSliver(ABC):
 
     def set_tags(self, tags: Tags) -> None:
         assert(tags is None or isinstance(tags, Tags))
+        if tags is not None:
+            # the list may have been edited since the object was built, check the tags again
+            Tags(list(tags.tags))
         self.tags = tags
 
     def get_tags(self) -> Tags or None:
